@@ -207,6 +207,16 @@ def standin_malformed(tier, seed):
                 r = [[{"a": 1, "b": 2}[x[0]]] + x[1:] for x in r]
             r[pos][0] = bad_id
             expect_refused(pd.DataFrame(r, columns=["ID", "TIME", "A", "B"]), f"{what} at row {pos}")
+    # a missing identifier among INTEGER identifiers (nullable Int64 with pd.NA, python ints with None / NaN)
+    for pos in range(len(base)):
+        ints = [{"a": 1, "b": 2}[x[0]] for x in base]
+        d_ = pd.DataFrame([list(x) for x in base], columns=["ID", "TIME", "A", "B"])
+        d1 = d_.copy()
+        d1["ID"] = pd.array([None if k == pos else v for k, v in enumerate(ints)], dtype="Int64")
+        expect_refused(d1, f"missing identifier (pd.NA in an Int64 column) at row {pos}")
+        d2 = d_.copy()
+        d2["ID"] = pd.Series([float("nan") if k == pos else v for k, v in enumerate(ints)], dtype=object)
+        expect_refused(d2, f"missing identifier (NaN among python ints) at row {pos}")
     expect_refused(pd.DataFrame(base, columns=["ID", "AGE", "A", "B"]), "no TIME column")
     expect_refused(pd.DataFrame([(x[0], x[1]) for x in base], columns=["ID", "TIME"]), "no feature column")
     # events: inconsistent event rows of one individual, negative / missing event time, non-boolean flag
